@@ -570,6 +570,12 @@ fn emit_sql(w: &mut CaseWriter, sut: &mut Sut, q: &Query, stream: &str) {
     w.count(if all_same { "budgets:4_identical_results" } else { "budgets:results_differ" }, 1);
     let mut lw = q.tabs[0].cols.len();
     for (k, (_, on)) in q.joins.iter().enumerate() { w.count(&format!("on:{}", on_shape(on, lw)), 1); lw += q.tabs[k + 1].cols.len(); }
+    // which execution path of Database::query the plan leads to (by the shape of ON, see Model/JoinHw.v)
+    if q.tabs.len() == 2 {
+        let on = if q.joins[0].0.has_on() { q.joins[0].1.clone() } else { None };
+        let sh = on_shape(&on, q.tabs[0].cols.len());
+        w.count(if sh == "equi" || sh == "equi_multi" || sh == "equi_plus_residual" { "path:database.rs hash path (StreamingHashJoin / GraceHashJoin plan)" } else { "path:database.rs nested loop (NestedLoopJoin plan)" }, 1);
+    } else { w.count("path:database.rs execute_nested_join_recursive / execute_hash_join_recursive (3+ tables)", 1); }
     w.count(if q.whr.is_some() { "where:yes" } else { "where:no" }, 1);
     w.count(if q.sel.is_some() { "select:column_list" } else { "select:star" }, 1);
     if spec.is_none() { w.count("spec:undefined", 1); }
